@@ -22,10 +22,10 @@ Notation cv_property := (cv_property snake camel screaming).
 Notation cv_enum := (cv_enum screaming).
 Notation field_decl_ok := (field_decl_ok snake).
 Notation fields_ok := (fields_ok snake).
-Notation inline_ok := (inline_ok snake camel screaming).
-Notation props_inline_ok := (props_inline_ok snake camel screaming).
-Notation property_inline_ok := (property_inline_ok snake camel screaming).
-Notation enum_ok := (enum_ok screaming).
+Notation inline_ok := (inline_ok snake camel screaming true).
+Notation props_inline_ok := (props_inline_ok snake camel screaming true).
+Notation property_inline_ok := (property_inline_ok snake camel screaming true).
+Notation enum_ok := (enum_ok screaming true).
 Notation prop_msg_names := (prop_msg_names snake camel).
 Notation prop_enum_names := (prop_enum_names camel).
 
@@ -66,7 +66,7 @@ Lemma cv_property_eq ev path io num n rq op f :
   | FArray it =>
       obind (cv_item ev path (camel n) it) (fun c =>
         finish io rq op (snake n) n num c LRepeated (fc_type c) (fc_tname c) (fc_msgs c)
-               (fc_imports c ++ if fc_validate c then [imp_validate] else []))
+               (imp_ext :: fc_imports c ++ if fc_validate c then [imp_validate] else []))
   | FMap it =>
       obind (cv_item ev path (camel n) it) (fun c =>
         if io then Err "map entry outside its message" else
@@ -174,21 +174,46 @@ Qed.
 Lemma enum_prefix_spec name e : enum_prefix screaming name (e_prefix e) = enum_pfx screaming name e.
 Proof. unfold enum_prefix, enum_pfx. destruct (e_prefix e); reflexivity. Qed.
 
+Lemma has_prefix_app x y : has_prefix x (x ++ y) = true.
+Proof. induction x as [|c r IH]; cbn; [reflexivity|]. rewrite N.eqb_refl, IH. reflexivity. Qed.
+Lemma has_suffix_app x y : has_suffix y (x ++ y) = true.
+Proof. unfold has_suffix. rewrite rev_app_distr. apply has_prefix_app. Qed.
+
+(* an option that spells the zero value ends in UNSPECIFIED *)
+Lemma zero_spelled_suffix pfx o : zero_spelled pfx o = true -> has_suffix (b "UNSPECIFIED") o = true.
+Proof.
+  unfold zero_spelled, opt_value_name. intros H. apply str_eqb_eq in H.
+  destruct (has_prefix pfx o).
+  - subst o. apply has_suffix_app.
+  - apply app_inv_head in H. subst o. apply (has_suffix_app []).
+Qed.
+
+(* the compiler's enum against the contract: the declared options numbered in order after
+   <PREFIX>UNSPECIFIED = 0 - unless the first option names a zero value of its own (lenient) *)
 Lemma cv_enum_ok name e : enum_ok name e (cv_enum name e).
 Proof.
-  unfold enum_ok, cv_enum, zero_value_name, declared_opts, unspecified.
+  unfold enum_ok, cv_enum, unspecified.
   rewrite enum_prefix_spec. set (pfx := enum_pfx screaming name e).
+  split; [destruct (e_opts e) as [|o r]; [reflexivity|destruct (has_suffix (b "UNSPECIFIED") o); reflexivity]|].
+  intros Hg. specialize (Hg eq_refl). unfold named_zero, strict_opts in *. fold pfx in Hg |- *.
   destruct (e_opts e) as [|o r].
   - cbn [en_name en_vals nth_error length]. repeat split.
     intros i q H. destruct i; discriminate.
   - destruct (has_suffix (b "UNSPECIFIED") o) eqn:Hs; cbn [en_name en_vals nth_error length].
-    + rewrite number_opts_length. repeat split.
-      intros i q Hq. rewrite (number_opts_nth _ 1 r i q Hq).
-      unfold opt_value_name, value_name. do 2 f_equal. lia.
-    + rewrite number_opts_length. repeat split.
+    + cbn [andb] in Hg. apply negb_false_iff in Hg. rewrite Hg.
+      rewrite number_opts_length. split; [|split; [reflexivity|]].
+      * unfold zero_spelled in Hg. apply str_eqb_eq in Hg. unfold value_name.
+        unfold opt_value_name in Hg. rewrite Hg. reflexivity.
+      * intros i q Hq. rewrite (number_opts_nth _ 1 r i q Hq).
+        unfold opt_value_name, value_name. do 2 f_equal. lia.
+    + assert (Hz : zero_spelled pfx o = false).
+      { destruct (zero_spelled pfx o) eqn:Ez; [|reflexivity].
+        apply zero_spelled_suffix in Ez. congruence. }
+      rewrite Hz. rewrite number_opts_length. repeat split.
       intros i q Hq. rewrite (number_opts_nth _ 1 (o :: r) i q Hq).
       unfold opt_value_name, value_name. do 2 f_equal. lia.
 Qed.
+
 
 (* ------------------------------------------------------------------ monotonicity *)
 Lemma inline_mono :
@@ -447,9 +472,9 @@ Notation cv_nested := (cv_nested snake camel screaming).
 Notation cv_nesteds := (cv_nesteds snake camel screaming).
 Notation cv_enum := (cv_enum screaming).
 Notation fields_ok := (fields_ok snake).
-Notation props_inline_ok := (props_inline_ok snake camel screaming).
-Notation nested_ok := (nested_ok snake camel screaming).
-Notation nesteds_ok := (nesteds_ok snake camel screaming).
+Notation props_inline_ok := (props_inline_ok snake camel screaming true).
+Notation nested_ok := (nested_ok snake camel screaming true).
+Notation nesteds_ok := (nesteds_ok snake camel screaming true).
 Notation prop_msg_names := (prop_msg_names snake camel).
 Notation prop_enum_names := (prop_enum_names camel).
 
@@ -505,7 +530,7 @@ Lemma nested_ok_oneof nm ps subs msgs enums :
 Proof. reflexivity. Qed.
 
 Lemma nested_ok_enum e msgs enums :
-  nested_ok (NEnum e) msgs enums = exists de, In de enums /\ enum_ok screaming (e_name e) e de.
+  nested_ok (NEnum e) msgs enums = exists de, In de enums /\ enum_ok screaming true (e_name e) e de.
 Proof. reflexivity. Qed.
 
 Lemma nesteds_ok_cons n r msgs enums :
@@ -585,7 +610,7 @@ Qed.
 
 (* ------------------------------------------------------------------ elements of a file *)
 Notation cv_elements := (cv_elements snake camel screaming).
-Notation element_ok := (element_ok snake camel screaming).
+Notation element_ok := (element_ok snake camel screaming true).
 
 Lemma cv_elements_main ev pkg els : forall main svc top main' svc' top',
   cv_elements ev pkg els main svc top = Ok (main', svc', top') ->
@@ -645,7 +670,7 @@ Qed.
    exactly the declared objects, oneofs and enums *)
 Theorem cv_file_main exports f D :
   cv_file snake camel screaming exports f = Ok D ->
-  exists df rest, D = df :: rest /\ main_file_ok snake camel screaming f df.
+  exists df rest, D = df :: rest /\ main_file_ok snake camel screaming true f df.
 Proof.
   unfold cv_file. intros H. inv_ok H. destruct a0 as [[main svc] top]. inversion H. subst D. clear H.
   eexists. eexists. split; [reflexivity|].
